@@ -427,7 +427,9 @@ class C03(ClientProp):
     rule = ("all ordered pairs of operation kinds back to back on one connection (exhaustive for length 2 over the 12 kinds of "
             "each API incl. thermostat control shapes), random histories up to length 20, and two API instances of different "
             "types/ids/keys run concurrently with every reply released in a seeded random order while the clock advances; the "
-            "device issues a fresh random session id per login. distinct = distinct events; non-trivial = frames and returns")
+            "device issues a fresh random session id per login; histories with a slow device (a reply 0.05 s .. 1 h late on the loop's virtual "
+            "clock), an impatient caller (wait_for around the call) and a reconnect on the same API object. "
+            "distinct = distinct events; non-trivial = frames and returns")
 
     def mc_runs(self, ctx):
         return [{"module": "MC_Client", "cfg": ctx.pick("MC_Client.cfg", "MC_ClientDeep.cfg"), "timeout": 1700, "coverage": False},
@@ -549,7 +551,9 @@ class C08(ClientProp):
     id = "C08"
     title = "state replies are decoded into exactly what the device reported"
     rule = ("get_state / get_breeze_state / get_shutter_state against replies with every field over its domain placed into "
-            "random filler of the lengths real devices send; login session observed through the next frame. "
+            "random filler of the lengths real devices send (every second reply with the header real devices send); login session observed "
+            "through the next frame; replies cut short although their header announced more + an impatient caller + a reconnect, then whole "
+            "replies; slow devices; end to end: state queries after commands against the device model, recorded and TLC-generated. "
             "distinct = distinct events; non-trivial = returned objects and the replies behind them")
 
     def scenarios(self, ctx: Ctx):
